@@ -118,8 +118,7 @@ def run(tier):
     plans.append(stream.Plan("rs/stat", covstat, [], None))
     plans.append(stream.Plan("rs+relative/stat", covstat, ["--relative-paths"], {"rel": True}, skin={"git_prefix": "sub/"},
                              env={"GIT_PREFIX": "sub/"}))
-    res = stream.execute_plans(plans)
-    failed, n = stream.validate_runs([x[4] for x in res])
+    failed, n, res, drift_lines = stream.execute_and_validate(plans)
     log(f"[{PID}] replayed {n} runs with free text around sections, {len(failed)} rejected by Obs_Stream")
     for f in failed:
         p, h, data, r, ev, rows = res[f["run"]]
@@ -186,7 +185,7 @@ def run(tier):
         i, raw, m = jobs[j]
         V.violation(f"exit:{m}:{raw!r}"[:300], f"delta exited {outs[j].code} on free text in mode {m}",
                     {"mode": m, "run": outs[j].to_json()})
-    V.drift = stream.drift_report(res)
+    V.drift = drift_lines
     # `git show <rev>` (no file name) and no calling git at all: text without construct-opening lines passes through
     # (the state machine ShowFile; the file view itself is C15's)
     from . import c15
